@@ -56,7 +56,7 @@ MANIFEST = dict(
     technique="Lean 4 proof (structure) + model/implementation correspondence check + property predicates on the implementation",
     ref='6 C09')
 
-TRUSTED = ['tools/gen_tables.py also checks that the seven <Planet>.geocentric_position bodies are identical up to the class name']
+TRUSTED = ['one model text serves the seven <Planet>.geocentric_position methods (identical up to the class name today); each planet is tied to its own method separately by the correspondence run']
 ASSUMPTIONS = ["'heliocentric position one light-time earlier, both taken from the library itself': planets = "
                "<Planet>/Earth.geometric_heliocentric_position(tofk5=False) (ecliptic of date), rotated with "
                "mean_obliquity; Pluto = Pluto.geometric_heliocentric_position (J2000) and the Earth = minus "
@@ -269,11 +269,16 @@ def two_body(q, e, i, om, w, dt):
     return rot_x((x3, y3, z2), EPS_J2000)
 
 
-def p_direction_minor(q, e, i, om, w, tp, jde):
+def regime_of(e):
+    return 'elliptic' if e < 0.98 else ('parabolic' if abs(e - 1.0) < 1e-10 else 'near_parabolic')
+
+
+@functools.lru_cache(maxsize=4096)
+def minor_eval(q, e, i, om, w, tp, jde):
+    """(ra_rad, dec_rad, psi_deg) of the implementation or ('exception', text); and the reference direction"""
     from pymeeus.Sun import Sun
     body = make_minor(q, e, i, om, w, tp)
     ep = mk_epoch(jde)
-    ra, dec, psi = body.geocentric_position(ep)
     sun = Sun.rectangular_coordinates_j2000(ep)
     t0 = ep.jde() - body._t.jde()
     tau = 0.0
@@ -281,18 +286,37 @@ def p_direction_minor(q, e, i, om, w, tp, jde):
         p = two_body(q, e, i, om, w, t0 - tau)
         d = [p[k] + sun[k] for k in range(3)]
         tau = 0.0057755183 * math.sqrt(sum(t * t for t in d))
-    got = sph(ra.rad(), dec.rad())
-    dev = angle_deg(d, got)
-    ang_sun = angle_deg(list(sun), got)
-    ok = dev <= 1e-4 and abs(ang_sun - psi()) <= 0.02 and 0.0 <= psi() <= 180.0
-    regime = 'elliptic' if e < 0.98 else ('parabolic' if abs(e - 1.0) < 1e-10 else 'near_parabolic')
-    return ok, {'deviation_deg': dev, 'elongation': psi(), 'angle_to_sun': ang_sun, 'regime': regime,
-                'light_time_days': tau, 'distance_au': tau / 0.0057755183}
+    try:
+        ra, dec, psi = body.geocentric_position(ep)
+        got = (ra.rad(), dec.rad(), psi())
+    except Exception as ex:  # noqa
+        got = ('exception', repr(ex)[:60])
+    return got, tuple(d), tuple(sun), tau
+
+
+def p_direction_minor(q, e, i, om, w, tp, jde):
+    got, d, sun, tau = minor_eval(q, e, i, om, w, tp, jde)
+    base = {'regime': regime_of(e), 'light_time_days': tau, 'distance_au': tau / 0.0057755183,
+            'reference_elongation': angle_deg(list(sun), list(d))}
+    if got[0] == 'exception':
+        return False, dict(base, exception=got[1])
+    dev = angle_deg(list(d), sph(got[0], got[1]))
+    return dev <= 1e-4, dict(base, deviation_deg=dev)
+
+
+def p_elongation_minor(q, e, i, om, w, tp, jde):
+    got, d, sun, tau = minor_eval(q, e, i, om, w, tp, jde)
+    base = {'regime': regime_of(e), 'reference_elongation': angle_deg(list(sun), list(d))}
+    if got[0] == 'exception':
+        return False, dict(base, exception=got[1])
+    ang_sun = angle_deg(list(sun), sph(got[0], got[1]))
+    ok = abs(ang_sun - got[2]) <= 0.02 and 0.0 <= got[2] <= 180.0
+    return ok, dict(base, elongation=got[2], angle_to_sun=ang_sun, diff_deg=abs(ang_sun - got[2]))
 
 
 PRED = {'direction_planet': p_direction_planet, 'elongation_planet': p_elongation_planet,
         'epoch_not_shifted': p_epoch_not_shifted, 'direction_pluto': p_direction_pluto, 'pluto_domain': p_pluto_domain,
-        'direction_minor': p_direction_minor}
+        'direction_minor': p_direction_minor, 'elongation_minor': p_elongation_minor}
 
 
 def check(ctx, name, inp, klass=None):
@@ -309,7 +333,10 @@ def known_match(k, f):
     if f.get('predicate') not in preds:
         return False
     d = f.get('detail') or {}
-    if 'exception' in d and not k.get('allow_exception'):
+    if 'exception' in d:
+        if not k.get('exception_contains') or k['exception_contains'] not in d['exception']:
+            return False
+    elif k.get('exception_only'):
         return False
     for key, lim in (k.get('detail_max') or {}).items():
         if key in d and not (isinstance(d[key], (int, float)) and d[key] <= lim):
@@ -469,8 +496,27 @@ def generate(ctx, shard=0, nshards=1):
         elems, j = rnd_minor(rng, regime)
         tie_minor(ctx, elems, j, regime)
         check(ctx, 'direction_minor', list(elems) + [j], 'direction_minor/' + regime)
+        check(ctx, 'elongation_minor', list(elems) + [j], 'elongation_minor/' + regime)
         if k % 4 == 0:
             check(ctx, 'epoch_not_shifted', ['Minor', j] + list(elems), 'epoch_not_shifted/minor')
+    # --- minor bodies near conjunction / opposition (low inclination: the elongation reaches 0 and 180)
+    for k in range(max(1, ctx.n(16, 160) // nshards)):
+        q = rng.choice([0.3, 0.8, 1.8, 2.5, 5.0])
+        e = rng.choice([0.05, 0.3, 0.6, 0.9, 0.99, 1.0])
+        inc = rng.choice([0.0, 0.0, 180.0, 0.3])
+        elems = (q, e, inc, rng.uniform(0, 360), rng.uniform(0, 360), norm_jde(2451545.0 + rng.uniform(-50, 50) * 365.25))
+        t0 = elems[5] + rng.uniform(-300, 300)
+        scan = []
+        for st in range(0, 800, 4):
+            jj = t0 + st
+            got, d, sun, tau = minor_eval(*(elems + (norm_jde(jj),)))
+            scan.append((angle_deg(list(sun), list(d)), norm_jde(jj)))
+        for target in (min(scan), max(scan)):
+            for off in (-2.0, -0.7, -0.2, 0.0, 0.2, 0.7, 2.0):
+                jj = norm_jde(target[1] + off)
+                check(ctx, 'direction_minor', list(elems) + [jj], 'direction_minor/syzygy')
+                check(ctx, 'elongation_minor', list(elems) + [jj], 'elongation_minor/syzygy')
+                tie_minor(ctx, elems, jj, 'syzygy')
     # --- kepler_equation, ecliptical2equatorial, Epoch operations
     for k in range(max(1, ctx.n(320, 4000) // nshards)):
         ecc = rng.choice([0.0, rng.random(), rng.random() * 0.98, 0.97, 0.9799, 0.999, 0.1])
